@@ -14,7 +14,8 @@ def run(ctx, seed_offset=0):
     progs = W.run_harness(c2, ['-random', '250' if quick else '2000', '-seqlen', '6' if quick else '7', '-maxh', '4', '-maxr', '20'], 'c09_%d' % seed_offset)
     good = W.evaluate(c2, res, progs, 'c09_violations', 'c09_%d' % seed_offset, 'C09', WHAT)
     seqs = [p for p in good if p['kind'] == 'sequence']
-    res.extra['exhaustive'] = 'all %d middleware registration sequences up to length %d over {router-level, handler A, handler B}' % (len(seqs), 6 if quick else 7)
+    res.extra['exhaustive'] = True
+    res.extra['exhaustive_space'] = 'all %d middleware registration sequences up to length %d over {router-level, handler A, handler B}' % (len(seqs), 6 if quick else 7)
     rnd = [p for p in good if p['kind'] == 'random']
     for p in seqs[700:701] + [p for p in good if p['kind'] == 'decorators'][20:21] + rnd[3:4]:
         res.sample(W.describe(p))
